@@ -22,6 +22,7 @@ pub fn scenario(tier: &str) -> (Life, Bounds) {
         tick_faults: false,
         bystander: false,
         extensions: true,
+        backlog: false,
     };
     let b = if th {
         Bounds { max_depth: 400, wall_cap_s: 1500.0, ..Default::default() }
@@ -59,6 +60,8 @@ pub fn run(tier: &str) -> ! {
     // MAINNET: real CreateMiner, block rewards, withdrawals, penalties across the first vesting days
     let sv = scenario_vesting(tier);
     run.add(mcx::explore(&sv, &Bounds { max_depth: if tier_is_thorough(tier) { 7 } else { 5 }, wall_cap_s: if tier_is_thorough(tier) { 900.0 } else { 25.0 }, replay_sample: 8, ..Default::default() }));
+    let (sk, bk) = crate::c15::scenario_backlog(tier, "C03", Oracles { c03: true, ..Default::default() });
+    run.add(mcx::explore(&sk, &bk));
     run.finish()
 }
 
